@@ -270,7 +270,8 @@ class HeapOps:
             return VRef(I(0), "NoneType")
         if isinstance(value, VPy) and value.obj == ("emptylist",):
             return self.new_list([])
-        if isinstance(value, (VStr, VInt, VBool, VSeq, VTuple, VOpaque, VStrJoin)):
+        if isinstance(value, (VStr, VInt, VBool, VSeq, VTuple, VOpaque, VStrJoin, VObj, VRec)) or \
+                (isinstance(value, VPy) and not (isinstance(value.obj, tuple) and value.obj[:1] == ("emptylist",))):
             # boxed python value: a fresh opaque heap object (its payload is not modelled)
             r = self.alloc("pyvalue")
             return r
@@ -633,7 +634,12 @@ class HeapOps:
         fields = self.class_fields(mod, cls_node)
         is_dc = any("dataclass" in ast.unparse(d) for d in cls_node.decorator_list)
         if not is_dc:
-            self._no(node, f"constructor of non-dataclass {name}")
+            init = mod.defs.get(f"{name}.__init__")
+            if init is None:
+                self._no(node, f"constructor of non-dataclass {name} without __init__")
+            obj = self.alloc(name)
+            self.ev.inline_function(init, self.ev.E.Env(module=mod), [obj] + list(args), kwargs, node, module=mod)
+            return obj
         kw_only = any("kw_only=True" in ast.unparse(d) for d in cls_node.decorator_list)
         obj = self.alloc(name)
         pos = [f for f, _ in fields if f not in ("before", "after", "scope", "scope_state")]
@@ -744,7 +750,15 @@ class HeapOps:
         self._no(node, f"{name}() form")
 
     def exec_with(self, st, env):
-        self._no(st, "with statement")
+        exts = self.ctx.contract.externals
+        for it in st.items:
+            ce = it.context_expr
+            key = ast.unparse(ce.func) if isinstance(ce, ast.Call) else None
+            if key is None or key not in exts:
+                self._no(st, f"with statement over {ast.unparse(ce)[:40]}")
+            self.ev.ev(ce, env)
+            self.ctx.assumptions_used.add(f"context manager `{key}` assumed to be a set/reset pair around its body (no effect on the modelled state)")
+        self.ev.exec_block(st.body, env)
 
     def idset_contains(self, container, item):
         members = container.obj[1]
@@ -757,4 +771,14 @@ class HeapOps:
         self._no(node, "set mutation (rebind needed)")
 
     def call_classattr(self, o, args, kwargs, node, env):
-        self._no(node, f"class attribute call {o[3]}")
+        """Class.method(...): classmethod (cls is passed) or plain function looked up on the class."""
+        _tag, mod, cls_node, attr = o
+        fn = mod.defs.get(f"{cls_node.name}.{attr}")
+        if fn is None:
+            self._no(node, f"class attribute call {cls_node.name}.{attr}")
+        is_cm = any(ast.unparse(d) == "classmethod" for d in fn.decorator_list)
+        is_sm = any(ast.unparse(d) == "staticmethod" for d in fn.decorator_list)
+        recv = VPy(("class", mod, cls_node), cls_node.name) if is_cm else None
+        if not is_cm and not is_sm:
+            self._no(node, f"unbound method call {cls_node.name}.{attr}")
+        return self.ev.call_repo_function(mod, fn, args, kwargs, node, env, recv=recv)
